@@ -30,6 +30,8 @@ PROP = {
         "GunYu.Props.C18.client_revalidation_agrees'",
         "GunYu.Props.C18.rdb_unit_single_slot",
         "GunYu.Props.C18.refused_txn_emits_nothing",
+        "GunYu.Props.C18.rdb_unit_single_slot_built",
+        "GunYu.Props.C18.raw_first_key_commands",
     ],
     "gens": ["c18", "c10"],
     "expected_facts": {
@@ -58,7 +60,8 @@ PROP = {
             "must be refused, all accepted transactions arrive once; injected faults at the node (CROSSSLOT at queue time, error entry inside the EXEC array: replay "
             "must stop, nothing later sent; MOVED / ASK once: whole block re-sent to the named node, replay goes on); snapshot phase: buildBisyncRdbReplayUnit in "
             "cluster mode on string/hash/list/zset entries (split bins, keyExists replace/ignore, RESTORE or expanded, replace-hashtag on/off, 16 brace arrangements) "
-            "-> execBisyncRdbUnit -> nodes (unit slot = HASH_SLOT(target key), every command on the target key, one block at the owner); cluster-global lane "
+            "-> execBisyncRdbUnit -> nodes (unit slot = HASH_SLOT(target key), every command on the target key, one block at the owner; the unit's command list diffed against the "
+            "model rdbCommands per unit); cluster-global lane "
             "(bisyncRdbGlobalTargets with shuffled ranges, execBisyncRdbGlobalUnit over direct connections: one block per primary, marker on a slot that primary serves). "
             "Also: the builder's introspection connection cannot be opened while the client's COMMAND GETKEYS works (fb_builder=connfail): a command outside the tables must stop "
             "the replay, nothing of it sent; snapshot values of 1-200 elements (units beyond 64 commands: one block all the same, no block without the marker). "
@@ -91,9 +94,13 @@ PROP = {
                     "(blocks are matched to their case by the run id in the marker, so a lane worker of an earlier case cannot pollute a later one or take its armed fault); "
                     "no monitor depends on a block being absent at a point in time except after that explicit wait; a run that reaches neither condition in 20 s is retried once "
                     "and only judged if it stalls again (counted loop_stalled_retry / loop_stalled_twice)"],
-    "partial": ["rdb_unit_single_slot: `u.slot = hashSlotSpec(target key)` and 'control keys on that slot' are proved; its single-slot clause ASSUMES hk (every resolved key of "
-                "every command of the unit IS the target key) — buildRdbUnit takes the command list as a free parameter; that captureBisyncRdbExpandedCommands / RESTORE / the "
-                "DEL prefix deliver such a list is tied only by the harness monitor rdb-command-off-target-key (string/hash/list/zset values of 1-200 elements)",
+    "partial": ["CLOSED (was: rdb_unit_single_slot assumes hk): rdb_unit_single_slot_built takes the command list buildBisyncRdbReplayUnit assembles — modelled (rdbCommands: "
+                "RESTORE form with REPLACE iff keyExists=replace; expanded form = the object parser's commands with names lower-cased and the source key rewritten to the target "
+                "key at the static tables' key positions (rewriteBisyncRdbCommandKeys), `del <target>` prefix iff first bin and keyExists=replace, `pexpire <target> ttl` suffix) "
+                "and tied by a correspondence op per generated snapshot unit (c18 rdbcmds: real unit.Commands vs model, ttl/dump canonicalised) — and proves every business key the "
+                "builder's resolver names (any COMMAND GETKEYS fall-back) and every control key on the target key's slot. What is left is a hypothesis on the OBJECT PARSER's output "
+                "only (RawOn: each command names, by the static tables, key positions that all hold the entry's key and do not move under the rewriting); it is proved for the "
+                "tables' first-key class (raw_first_key_commands: set/hset/rpush/sadd/zadd/xadd) and is pkg/rdb's expansion otherwise (C20 / C03; XGROUP / module values not covered)",
                 "refused_txn_emits_nothing is a statement about the parser MODEL (Bisync.parse); the model is tied to parseAofReplayUnits by C13's parse ops (cluster mode "
                 "included), not by C18's own harness: C18's 'refusal emits nothing' rests on C13 passing too, plus the loop monitors here",
                 "a late block of a lane worker (parallel mode) that lands after the case's settle window is dropped by run id and cannot be judged (sent-after-refusal for a slow "
